@@ -219,7 +219,11 @@ func c04(r *vlib.Run) int {
 		json.Unmarshal(raw, &res)
 		c04Check(r, i, typed[i], exps[i], &res)
 	}
+	var hk sync.WaitGroup
+	hk.Add(1)
+	go func() { defer hk.Done(); c04Housekeeping(r) }()
 	c04E2E(r)
+	hk.Wait()
 	return n / 2
 }
 
@@ -445,6 +449,103 @@ func c04E2E(r *vlib.Run) {
 		if bad != "" || res.Panicked() {
 			r.Violation("e2e-follow", map[string]interface{}{"ssh": ssh, "why": bad, "appended": len(expected), "delivered": len(got),
 				"exit": res.Exit, "stderr": vlib.Trunc(string(res.Stderr), 1000), "stdout_tail": vlib.Trunc(lastN(string(res.Stdout), 600), 700)})
+		}
+	})
+}
+
+// c04Housekeeping: a follow that lasts through several of the follower's
+// periodic housekeeping rounds (truncation check every 3 s) while a writer
+// appends all the time. The hook point fs.eof (follower saw the end of the
+// file) carries a delay, which widens the window between "read returned EOF"
+// and whatever the follower does next, so that appends fall into it at every
+// round. Oracle as in the e2e tier: every appended line exactly once, in
+// order, 100% transmitted (about 300 lines/s, far below the queue capacity).
+func c04Housekeeping(r *vlib.Run) {
+	n := r.N(2, 12)
+	dir, _ := filepath.EvalSymlinks(r.Dir("c04hk"))
+	vlib.Parallel(n, 4, func(i int) {
+		path := filepath.Join(dir, fmt.Sprintf("h%d.log", i))
+		os.WriteFile(path, []byte("OLD-0 keep\nOLD-1 keep\n"), 0644)
+		defer os.Remove(path)
+		home := serverlessHome(r)
+		var pid int
+		var pmu sync.Mutex
+		delay := []int{25, 60, 8, 120}[i%4]
+		cmd := vlib.Cmd{Path: r.Bin("dtail"), Dir: home, Watchdog: 120 * time.Second,
+			Args: []string{"--cfg", "none", "--logger", "stdout", "--logLevel", "error", "--noColor", "--shutdownAfter", "10", "--files", path},
+			Env:  []string{"HOME=" + home, fmt.Sprintf("VERIF_POINTS=fs.eof=sleep(%d)", delay)},
+			OnStart: func(p int) { pmu.Lock(); pid = p; pmu.Unlock() }}
+		var expected []string
+		var wg sync.WaitGroup
+		wg.Add(1)
+		positioned := false
+		go func() {
+			defer wg.Done()
+			deadline := time.Now().Add(4 * time.Second)
+			for time.Now().Before(deadline) {
+				pmu.Lock()
+				p := pid
+				pmu.Unlock()
+				if p != 0 && fdPos(p, path) == 22 {
+					positioned = true
+					break
+				}
+				time.Sleep(3 * time.Millisecond)
+			}
+			if !positioned {
+				return
+			}
+			fd, _ := os.OpenFile(path, os.O_APPEND|os.O_WRONLY, 0644)
+			defer fd.Close()
+			start := time.Now()
+			for k := 0; time.Since(start) < 7500*time.Millisecond; k++ {
+				l := fmt.Sprintf("hk%06d-%d busy writer line", k, i)
+				expected = append(expected, l)
+				fd.WriteString(l + "\n")
+				time.Sleep(3 * time.Millisecond)
+			}
+		}()
+		res := vlib.RunCmd(cmd)
+		wg.Wait()
+		r.Eval(fmt.Sprintf("housekeeping|%d|%d", i, delay))
+		r.Count("housekeeping_follows", 1)
+		if res.TimedOut || !positioned {
+			r.Inconclusive("dtail-housekeeping-not-positioned-or-watchdog")
+			return
+		}
+		var got []string
+		bad := ""
+		for _, l := range strings.Split(string(res.Stdout), "\n") {
+			if !strings.HasPrefix(l, "REMOTE|") {
+				continue
+			}
+			p := strings.SplitN(l, "|", 6)
+			if len(p) != 6 {
+				bad = "short record: " + l
+				break
+			}
+			if strings.TrimSpace(p[2]) != "100" && bad == "" {
+				bad = "percentage " + p[2] + " although nothing can have been dropped: " + l
+			}
+			got = append(got, p[5])
+		}
+		for k := range got {
+			if bad != "" {
+				break
+			}
+			if k >= len(expected) {
+				bad = fmt.Sprintf("%d lines delivered, %d appended", len(got), len(expected))
+			} else if got[k] != expected[k] {
+				bad = fmt.Sprintf("delivered #%d is %q, appended #%d is %q", k, got[k], k, expected[k])
+			}
+		}
+		if bad == "" && len(got) < len(expected) {
+			bad = fmt.Sprintf("only %d of %d appended lines delivered (the writer stopped 2.5 s before the follow ended)", len(got), len(expected))
+		}
+		r.Count("housekeeping_lines_checked", len(got))
+		if bad != "" || res.Panicked() {
+			r.Violation("follow-loses-lines-around-housekeeping", map[string]interface{}{"why": bad, "appended": len(expected), "delivered": len(got),
+				"eof_hook_delay_ms": delay, "exit": res.Exit, "stderr": vlib.Trunc(string(res.Stderr), 1000)})
 		}
 	})
 }
